@@ -11,6 +11,7 @@ Props/C16d.lean — C16 continued: the CHECKED conversions.
 * `conv_checked_fails_on_name`: if pushing some source name is rejected, the whole conversion fails.
 -/
 import TypedPathVerif.Props.C16c
+import TypedPathVerif.Props.C04
 
 namespace TP.C16d
 
